@@ -228,6 +228,27 @@ def aggregates(prog, adt_pat, variant=None, crates=None):
     return out
 
 
+# --------------------------------------------------------------------------- effects through helpers
+def effect_blocks(prog, f, direct, depth=3, _stack=()):
+    """Blocks of f that perform an effect. `direct(g)` lists the blocks of a function g that perform it themselves (for instance: build a
+    particular Error). A call of a function of the same crate that performs the effect on every path to its return counts as performing it
+    (so extracting the effect into a private helper, or wrapping it, does not change the answer)."""
+    out = set(direct(f))
+    if depth <= 0:
+        return out
+    for c in f.calls():
+        if f.blocks[c.bb].get('cleanup'):
+            continue
+        g = prog.fns.get(c.resolved or '') or prog.fns.get(c.callee or '')
+        if g is None or g is f or g.path in _stack or g.crate.tag != f.crate.tag or not g.blocks:
+            continue
+        eb = effect_blocks(prog, g, direct, depth - 1, _stack + (f.path,))
+        rets = g.return_blocks()
+        if eb and rets and must_pass(g, 0, rets, eb):
+            out.add(c.bb)
+    return out
+
+
 # --------------------------------------------------------------------------- must-pass-through
 def must_pass(fn, start, targets, through, unwind=False, within=None):
     """True iff every path from block `start` to any block in `targets` passes through a block in
